@@ -108,6 +108,7 @@ def do_run(cfg, resume_from=None, fail_at=None, budget_s=60, vid0=0, keep_payloa
         r.payloads.append({
             "iteration": state["iteration"], "beta": float(state["meta"]["beta"]),
             "forced": s.log_evidence is not None, "pid": getattr(s, "_vid", -1),
+            "pop_beta": (None if getattr(s, "beta", None) is None else float(s.beta)),
             "n_hist": len(state["history"].sample_history), "n_beta": len(state["history"].beta),
             "bytes": pickle.dumps(state) if keep_payloads else None,
             "live": state,                    # the very object handed over: what a caller who keeps it will resume from
